@@ -399,12 +399,30 @@ func (c *Ctx) BVBin(op Op, a, b *Term) *Term {
 		if b.IsConst() && b.C == 0 {
 			return a
 		}
+		// x + (y - x) = y ; (y - x) + x = y
+		if op == OpAdd {
+			if b.Op == OpSub && len(b.Args) == 2 && b.Args[1] == a {
+				return b.Args[0]
+			}
+			if a.Op == OpSub && len(a.Args) == 2 && a.Args[1] == b {
+				return a.Args[0]
+			}
+		}
 	case OpSub, OpShl, OpLShr, OpAShr:
 		if b.IsConst() && b.C == 0 {
 			return a
 		}
 		if op == OpSub && a == b {
 			return c.BVC(0, w)
+		}
+		// (x + y) - x = y ; (x + y) - y = x   (modular arithmetic: always valid)
+		if op == OpSub && a.Op == OpAdd && len(a.Args) == 2 {
+			if a.Args[0] == b {
+				return a.Args[1]
+			}
+			if a.Args[1] == b {
+				return a.Args[0]
+			}
 		}
 	case OpBAnd:
 		if a.IsConst() && a.C == 0 || b.IsConst() && b.C == 0 {
